@@ -5,3 +5,10 @@ def run(chk):
     # PVMath.C13Log (second lean_lib, imports single Mathlib modules; never imported by the driver) turns the
     # integer bounds into the real-valued 1.4405*log2(n+2) / 2*log2(n+1) forms of the property statement
     return T.run(chk, "C13", T.view_c13, ["PV.Props.C13", "PVMath.C13Log"], "C13 trees")
+
+
+def replay_family(cfg):
+    import pv, diffrun
+    fam = diffrun.Family("tree", pv.build_harness("tree", cfg, ["tree.c"], san="asan"), spec_view=T.view_c13)
+    fam.keep_prefix = 1
+    return fam
